@@ -359,3 +359,20 @@ for _p in ['C01', 'C02', 'C04', 'C05', 'C06', 'C07', 'C08', 'C09', 'C10', 'C13',
     MUTANTS.append({'prop': _p, 'id': 'reformatted-tree', 'kind': 'T', 'edits': 'REFORMAT'})
 K('C08', 'setup-stale-marginals', [(INF, "        model.potentials = CliqueVector.zeros(self.domain, model.cliques)\n        model.potentials.combine(self.structural_zeros)", "        model.potentials = CliqueVector.zeros(self.domain, model.cliques)\n        model.marginals = model.belief_propagation(model.potentials)\n        model.potentials.combine(self.structural_zeros)")], 'pair-at-exit')
 T('C08', 'setup-marginals-in-sync', [(INF, "            model.potentials.combine(self.model.potentials)\n        self.model = model  ", "            model.potentials.combine(self.model.potentials)\n        model.marginals = model.belief_propagation(model.potentials)\n        self.model = model  ")])
+K('C07', 'tolerant-zero-test', [(CDP, "def cdp_delta_standard(rho,eps):", "def _iszero(rho):\n    return math.isclose(rho,0.0,abs_tol=1e-7)\n\ndef cdp_delta_standard(rho,eps):"),
+                                (CDP, "    assert eps>=0\n    if rho==0: return 0 #degenerate case\n\n    #search for best alpha", "    assert eps>=0\n    if _iszero(rho): return 0 #degenerate case\n\n    #search for best alpha")], None)
+K('C07', 'fallback-standard-bound', [(CDP, "    #now calculate delta\n", "    if alpha-1.01<1e-9:\n        return min(cdp_delta_standard(rho,eps),1.0)\n    #now calculate delta\n")], 'early-exit')
+K('C07', 'eps-early-exit-small-rho', [(CDP, "    if delta>=1 or rho==0: return 0.0 #if delta>=1 or rho=0 then anything goes", "    if delta>=1 or rho<1e-7: return 0.0 #if delta>=1 or rho=0 then anything goes")], 'early-exit')
+T('C07', 'exact-zero-helper', [(CDP, "def cdp_delta_standard(rho,eps):", "def _iszero(rho):\n    return rho == 0\n\ndef cdp_delta_standard(rho,eps):"),
+                               (CDP, "    assert eps>=0\n    if rho==0: return 0 #degenerate case\n\n    #search for best alpha", "    assert eps>=0\n    if _iszero(rho): return 0 #degenerate case\n\n    #search for best alpha")])
+K('C20', 'em-unshifted-helper-with-base', [(MECH, "def pareto_efficient(costs):", "def normalize(logits):\n    w = np.exp(logits)\n    return w / w.sum()\n\ndef pareto_efficient(costs):"),
+                                           (MECH, "            p = softmax(0.5*epsilon/sensitivity*q + base_measure)", "            p = normalize(0.5*epsilon/sensitivity*q + base_measure)")], 'stable')
+K('C20', 'best-noise-std-as-scale', [(MECH, "        if np.sqrt(2)*b < sigma:\n            return partial(self.laplace_noise, b)", "        laplace_std = np.sqrt(2)*b\n        if laplace_std < sigma:\n            return partial(self.laplace_noise, laplace_std)")], 'sampler-identity')
+T('C20', 'em-shifted-helper-no-base', [(MECH, "def pareto_efficient(costs):", "def normalize(logits):\n    w = np.exp(logits)\n    return w / w.sum()\n\ndef pareto_efficient(costs):"),
+                                       (MECH, "            p = softmax(0.5*epsilon/sensitivity*q)\n", "            p = normalize(0.5*epsilon/sensitivity*q)\n")])
+K('C04', 'groups-never-reset', [(INF, "        self.groups = defaultdict(lambda: [])\n", ""), (INF, "        self.history = []\n", "        self.history = []\n        self.groups = defaultdict(list)\n")], 'exactly-once')
+K('C04', 'fix-identity-lookalike', [(INF, "            if Q is None:\n                Q = sparse.eye(self.domain.size(proj))", "            if Q is None or (Q.shape[0] == Q.shape[1] and np.all(Q.diagonal() == 1)):\n                Q = sparse.eye(self.domain.size(proj))")], 'spelling')
+T('C04', 'fix-q-converted', [(INF, "            if Q is None:\n                Q = sparse.eye(self.domain.size(proj))", "            if Q is None:\n                Q = sparse.eye(self.domain.size(proj))\n            elif isinstance(Q, np.ndarray):\n                Q = sparse.csr_matrix(Q)")])
+K('C09', 'setup-reuses-model-total-lost', [(INF, "        model = GraphicalModel(self.domain,cliques,total,elimination_order=self.elim_order)\n", "        if self.warm_start and hasattr(self, 'model') and list(self.model.cliques) == cliques:\n            model = self.model\n        else:\n            model = GraphicalModel(self.domain,cliques,total,elimination_order=self.elim_order)\n")], 'pass-through')
+K('C09', 'pi-preallocated-arrays', [(PI, "    variances = np.array([])\n    estimates = np.array([])\n    for Q, y, noise, proj in measurements:", "    variances = np.zeros(len(measurements))\n    estimates = np.zeros(len(measurements))\n    k = 0\n    for Q, y, noise, proj in measurements:"),
+                                   (PI, "            variances = np.append(variances, noise**2 * np.dot(v, v))\n            estimates = np.append(estimates, np.dot(v, y))\n    if estimates.size == 0:", "            variances[k] = noise**2 * np.dot(v, v)\n            estimates[k] = np.dot(v, y)\n            k += 1\n    if k == 0:")], 'sibling-agreement')
